@@ -47,10 +47,16 @@ META = {
                      "re.compile/.search"],
 }
 
-H_KINDS = ["none", "bool", "int", "float", "str", "other"]
+# literal evaluation of a scalar's text can also produce a container
+# ('[1, 2]', '(1, 2)', '{1}', '{"a": 1}'): those are compared as text, like
+# every other non-numeric value
+H_KINDS = ["none", "bool", "int", "float", "str", "other",
+           "list", "tuple", "set", "dict"]
 N_KINDS = ["bool", "int", "float", "str", "other"]
 ISA = {"none": set(), "bool": {"bool", "int"}, "int": {"int"},
-       "float": {"float"}, "str": {"str"}, "other": set()}
+       "float": {"float"}, "str": {"str"}, "other": set(),
+       "list": {"list"}, "tuple": {"tuple"}, "set": {"set"},
+       "dict": {"dict"}}
 NUM = {"bool", "int", "float"}
 ORDER = {"GREATER_THAN": ">", "LESS_THAN": "<",
          "GREATER_THAN_OR_EQUAL": ">=", "LESS_THAN_OR_EQUAL": "<="}
@@ -121,7 +127,7 @@ def d1_table(chk: Check) -> None:
     prog = chk.prog
     chk.rule("C12-D1", "each (operator, haystack kind, needle kind) cell of "
              "Searches.search_matches reduces to the documented comparison",
-             floor=270)
+             floor=450)
     fi = prog.func("Searches.search_matches")
     chk.analysed(fi)
     params = fi.params()
@@ -411,3 +417,7 @@ def run(chk: Check) -> None:
     d5_inversion(chk)
     d6_every_candidate_judged(chk)
     d7_all_equal_keys(chk)
+    # the verdict judged for an element is the one computed for it
+    from rules.c01 import d4c_verdict_per_element
+    d4c_verdict_per_element(chk, "C12-D8")
+
